@@ -3,6 +3,6 @@
 # quick check, reverts /repo straight afterwards.  usage: seed_eval.sh <ID> <k> [property-to-check]
 id=$1; k=$2; pid=${3:-$id}; d=/verif/seeded/$id-$k
 cd /repo && git apply $d/patch.diff || { echo "apply failed"; exit 2; }
-cd /verif && NV_CBMC_TIMEOUT=240 ./check $pid --no-evidence > $d/check_$pid.log 2>&1; rc=$?
+cd /verif && NV_CBMC_TIMEOUT=900 ./check $pid --no-evidence > $d/check_$pid.log 2>&1; rc=$?
 cd /repo && git checkout -- . 
 echo "$id-$k check($pid) exit=$rc :: $(grep -c 'refuted:' $d/check_$pid.log) refuted, $(grep -c '^UNDECIDED' $d/check_$pid.log) undecided, $(grep -c '^VIOLATION' $d/check_$pid.log) violation lines ($(grep '^VIOLATION' $d/check_$pid.log | grep -vc no-failing-input-found) replayed)"
